@@ -8,7 +8,7 @@ Set Implicit Arguments.
 Section ControlProofs.
 Variable A : Type.
 Variable ar : Arith A.
-Variable fixed : bool.
+Variable fixed : variant.
 Variables n2 err1 err2 err2c : nat -> A.
 Variables norm_tol exp_tol : A.
 
@@ -305,7 +305,8 @@ Qed.
 
 (* ---- the real loop (with its exits) against the ghost run -------------------------------- *)
 Section LoopLink.
-Variables (fixed herm : bool) (norm_tol exp_tol n0 : A) (st0 : kstate K V) (d : A).
+Variable fixed : variant.
+Variables (herm : bool) (norm_tol exp_tol n0 : A) (st0 : kstate K V) (d : A).
 
 Definition gstream (f : body_out A K V -> A) : nat -> A := fun i =>
   match ghostM herm st0 i with
